@@ -61,6 +61,8 @@ def _aggregate_consecutive(operations):
 
 
 def run(ctx):
+    from ..lints import enum_members_distinct
+    enum_members_distinct(ctx, "sequence/align/cigar.py", "R5.enum-members-distinct")
     from .C12 import nucleotide_text_rule
     nucleotide_text_rule(ctx, "R4.nucleotide-text-normalised")
     # FASTA conversion stores every row through FastaFile.__setitem__ and reads the recorded line ranges back
